@@ -247,8 +247,10 @@ package netpoll
 //@     FDOperator.FD, FDOperator.OnRead, FDOperator.OnWrite, FDOperator.OnHup, FDOperator.Inputs, FDOperator.InputAck, FDOperator.Outputs, FDOperator.OutputAck, FDOperator.poll, FDOperator.detached
 //@ iface Poll.Alloc
 //@   results operator
-//@   ensures operator != nil && operator.owned && operator.detached == 0
-//@   modifies FDOperator.owned, operatorCache.first, operatorCache.cache, operatorCache.locked, operatorCache.ocl, FDOperator.slot, FDOperator.rank, FDOperator.cacheof, FDOperator.next, FDOperator.poll, mem:*FDOperator
+//@   ensures operator != nil && operator.owned && operator.detached == 0 && !operator.opheld
+//@   ensures forall o *FDOperator :: o != operator && wasalloc(o) ==> o.owned == old(o.owned)
+//@   ensures wasalloc(operator) ==> !old(operator.owned)
+//@   modifies FDOperator.owned, operatorCache.first, operatorCache.cache, operatorCache.locked, operatorCache.ocl, FDOperator.slot, FDOperator.rank, FDOperator.cacheof, FDOperator.next, FDOperator.poll, mem:*FDOperator, ocBase
 
 //@ func (*locker).stop
 //@   property C05 C08
